@@ -34,6 +34,8 @@ pub struct AnalyzeIter<'a> {
     prev_end: Option<usize>,
     nesting_table: HashMap<usize, usize>,
     skip: bool,
+    #[cfg(regexml_verif)]
+    pub(crate) verif_id: u64,
 }
 
 impl<'a> AnalyzeIter<'a> {
@@ -44,6 +46,8 @@ impl<'a> AnalyzeIter<'a> {
             prev_end: Some(0),
             nesting_table: Self::compute_nesting_table(pattern),
             skip: false,
+            #[cfg(regexml_verif)]
+            verif_id: crate::verif::new_id(),
         }
     }
 
@@ -215,6 +219,19 @@ impl Iterator for AnalyzeIter<'_> {
     type Item = AnalyzeEntry;
 
     fn next(&mut self) -> Option<Self::Item> {
+        #[cfg(regexml_verif)]
+        if let Some(_traced) = crate::verif::enter() {
+            let ids = format!("\"it\":{}", self.verif_id);
+            return crate::verif::call(
+                "ana_next",
+                ids,
+                || self.next(),
+                |r| match r {
+                    Some(e) => format!("{{\"k\":\"some\",\"v\":{}}}", crate::verif::entry_json(e)),
+                    None => "{\"k\":\"none\"}".to_string(),
+                },
+            );
+        }
         if let Some(prev_end) = self.prev_end {
             if let Some(substring) = self.next_substring.take() {
                 // we've added a non-match, so now added the match that follows
